@@ -9,7 +9,7 @@ func init() {
 			"that the provision is reduced exactly under epoch ≥ reduction period + last reduction epoch together with storing the minter and the new last-reduction epoch, that nothing is minted before the start epoch, and that developer rewards are burned from the mint account, paid from the vesting account under a supply-offset bracket.",
 		NotCovered:  []string{"mint account empty / supply grows by exactly the provision as numbers", "long-run schedule over epochs"},
 		Assumptions: []string{"bank keeper semantics", "epoch hook is invoked once per epoch (C17)"},
-		MinObl:      27,
+		MinObl:      32,
 		Run:         runC18,
 	})
 }
